@@ -67,29 +67,29 @@ K = Kind
 CATALOGUE = [
     # ------------------------------------------------------------------ link-time errors (lazy evaluation)
     K("undefined-symbol", "link", "error", ".word ⟦undef{u}⟧", "undefined-symbol"),
-    K("register-as-value", "link", "error", ".word ⟦r0⟧", "unexpected-register"),
-    K("byte-too-wide", "link", "error", ".byte ⟦400⟧", "value-out-of-bounds"),
-    K("word-too-wide", "link", "error", ".word 1, ⟦200000⟧", "value-out-of-bounds"),
-    K("dword-too-wide", "link", "error", ".dword ⟦40000000000⟧", "value-out-of-bounds"),
-    K("immediate-too-wide", "link", "error", "mov #⟦200000⟧, r0", "value-out-of-bounds",
+    K("register-as-value", "compile", "error", ".word ⟦r0⟧", "unexpected-register"),
+    K("byte-too-wide", "compile", "error", ".byte ⟦400⟧", "value-out-of-bounds"),
+    K("word-too-wide", "compile", "error", ".word 1, ⟦200000⟧", "value-out-of-bounds"),
+    K("dword-too-wide", "compile", "error", ".dword ⟦40000000000⟧", "value-out-of-bounds"),
+    K("immediate-too-wide", "compile", "error", "mov #⟦200000⟧, r0", "value-out-of-bounds",
       note="pdpy11's token for '#expr' starts after the '#': the expression inside '#' is designated"),
-    K("index-too-wide", "link", "error", "mov ⟦200000⟧(r1), r0", "value-out-of-bounds"),
-    K("absolute-too-wide", "link", "error", "clr @#⟦200000⟧", "value-out-of-bounds"),
-    K("negative-count", "link", "error", ".blkb -⟦1⟧", "value-out-of-bounds",
+    K("index-too-wide", "compile", "error", "mov ⟦200000⟧(r1), r0", "value-out-of-bounds"),
+    K("absolute-too-wide", "compile", "error", "clr @#⟦200000⟧", "value-out-of-bounds"),
+    K("negative-count", "compile", "error", ".blkb -⟦1⟧", "value-out-of-bounds",
       note="pdpy11's token for a signed literal starts after the '-': the first digit is designated"),
-    K("negative-repeat", "link", "error", ".repeat -⟦2⟧ { nop }", "value-out-of-bounds",
+    K("negative-repeat", "compile", "error", ".repeat -⟦2⟧ { nop }", "value-out-of-bounds",
       note="signed literal: first digit designated"),
-    K("octal-8-9", "link", "error", ".word ⟦19⟧", "invalid-number"),
-    K("division-by-zero", "link", "error", ".word ⟦1 / 0⟧", "arithmetic-error"),
-    K("negative-shift", "link", "error", ".word ⟦1 << -1⟧", "arithmetic-error"),
-    K("constant-division-by-zero", "link", "error", "dz{u} = ⟦5 % 0⟧", "arithmetic-error"),
+    K("octal-8-9", "compile", "error", ".word ⟦19⟧", "invalid-number"),
+    K("division-by-zero", "compile", "error", ".word ⟦1 / 0⟧", "arithmetic-error"),
+    K("negative-shift", "compile", "error", ".word ⟦1 << -1⟧", "arithmetic-error"),
+    K("constant-division-by-zero", "compile", "error", "dz{u} = ⟦5 % 0⟧", "arithmetic-error"),
     K("branch-out-of-reach", "link", "error", "⟦br⟧ far{u}", "branch-out-of-bounds",
       post=(".blkw 200", "far{u}: nop"), level="statement",
       note="the first span of a branch-range report is the instruction name"),
-    K("branch-odd", "link", "error", "⟦beq⟧ . + 3", "odd-branch", level="statement"),
+    K("branch-odd", "compile", "error", "⟦beq⟧ . + 3", "odd-branch", level="statement"),
     K("sob-forward", "link", "error", "⟦sob⟧ r0, fwd{u}", "branch-out-of-bounds",
       post=("nop", "fwd{u}: nop"), level="statement"),
-    K("trap-number-too-wide", "link", "error", "⟦trap⟧ 400", "value-out-of-bounds", level="statement",
+    K("trap-number-too-wide", "compile", "error", "⟦trap⟧ 400", "value-out-of-bounds", level="statement",
       note="first designation was the operand '400'; pdpy11 names the instruction first and the operand second, "
            "like for branch range; accepted as a statement-level culprit"),
     K("too-few-operands", "compile", "error", "⟦mov⟧ r0", "wrong-operands", level="statement"),
@@ -97,36 +97,44 @@ CATALOGUE = [
     K("directive-too-many-operands", "compile", "error", "⟦.even⟧ 1", "wrong-meta-operands", level="statement"),
     K("unknown-instruction", "compile", "error", "⟦frob{u}⟧ r0", "unknown-insn"),
     K("label-as-instruction", "compile", "error", "⟦li{u}⟧ r0", "meta-type-mismatch", pre=("li{u}: nop",)),
-    K("user-error", "link", "error", "⟦.error⟧ boom", "user-error", level="statement"),
-    K("unencodable-character", "link", "error", "⟦.ascii⟧ /aαb/", "invalid-character", level="statement",
+    K("user-error", "compile", "error", "⟦.error⟧ boom", "user-error", level="statement"),
+    K("unencodable-character", "compile", "error", "⟦.ascii⟧ /aαb/", "invalid-character", level="statement",
       note="first designation was the string operand; pdpy11 reports the directive (coarse position, reported "
            "to the lead as an observation); the statement is accepted as the culprit"),
     K("word-at-odd-address", "link", "error", "⟦.word⟧ 1", "odd-address", pre=(".byte 1",), level="statement"),
     K("second-link", "compile", "error", "⟦.link⟧ 4000", "address-conflict", pre=(".link 3000",), level="statement"),
     K("self-dependent-link", "link", "error", "⟦.link⟧ sl{u}", "recursive-definition",
       post=("nop", "sl{u}: nop"), level="statement"),
-    K("backward-dot", "link", "error", "⟦.⟧ = . - 2", "value-out-of-bounds", pre=(".link 3000", "nop"),
+    K("backward-dot", "compile", "error", "⟦.⟧ = . - 2", "value-out-of-bounds", pre=(".link 3000", "nop"),
       level="statement"),
-    K("missing-include", "link", "error", "⟦.include⟧ /nofile{u}.mac/", "io-error", level="statement"),
-    K("missing-insert-file", "link", "error", "⟦insert_file⟧ /nofile{u}.dat/", "io-error", level="statement"),
-    K("align-zero", "link", "error", "⟦.align⟧ 0", "value-out-of-bounds", level="statement",
+    K("missing-include", "compile", "error", "⟦.include⟧ /nofile{u}.mac/", "io-error", level="statement"),
+    K("missing-insert-file", "compile", "error", "⟦insert_file⟧ /nofile{u}.dat/", "io-error", level="statement"),
+    K("align-zero", "compile", "error", "⟦.align⟧ 0", "value-out-of-bounds", level="statement",
       note="first designation was the operand '0'; pdpy11 reports the directive (coarse position, reported to "
            "the lead as an observation); the statement is accepted as the culprit"),
-    K("rad50-invalid-character", "link", "error", ".rad50 ⟦/a!b/⟧", "invalid-character"),
-    K("rad50-code-too-big", "link", "error", ".rad50 /a/⟦<50>⟧", "value-out-of-bounds"),
-    K("ascii-code-too-big", "link", "error", ".ascii /a/<⟦400⟧>", "value-out-of-bounds"),
-    K("tape-name-too-long", "link", "error", "⟦make_wav⟧ /t{u}.wav/, /12345678901234567/", "too-long-string",
+    K("rad50-invalid-character", "compile", "error", ".rad50 ⟦/a!b/⟧", "invalid-character"),
+    K("rad50-code-too-big", "compile", "error", ".rad50 /a/⟦<50>⟧", "value-out-of-bounds"),
+    K("ascii-code-too-big", "compile", "error", ".ascii /a/<⟦400⟧>", "value-out-of-bounds"),
+    K("tape-name-too-long", "compile", "error", "⟦make_wav⟧ /t{u}.wav/, /12345678901234567/", "too-long-string",
       level="statement",
       note="first designation was the tape-name string; pdpy11 reports the directive (coarse position, reported "
            "to the lead as an observation); the statement is accepted as the culprit"),
     K("excess-hash-directive", "compile", "error", ".word ⟦#⟧1", "excess-hash"),
+    # ------------------------------------------------------------------ genuinely lazy (link-time) faults: the value
+    # is only known after a LATER statement, so the report is issued long after the statement was compiled
+    K("lazy-byte-too-wide", "link", "error", ".byte ⟦big{u}⟧", "value-out-of-bounds", post=("big{u} = 400",)),
+    K("lazy-immediate-too-wide", "link", "error", "mov #⟦wide{u}⟧, r0", "value-out-of-bounds", post=("wide{u} = 200000",)),
+    K("lazy-division-by-zero", "link", "error", ".word ⟦1 / zz{u}⟧", "arithmetic-error", post=("zz{u} = 0",)),
+    K("lazy-negative-count", "link", "error", ".blkb ⟦neg{u}⟧", "value-out-of-bounds", post=("neg{u} = -1",)),
+    K("register-in-constant", "compile", "error", "rc{u} = ⟦r3⟧", "unexpected-register"),
+    K("word-without-operand", "link", "warning", "⟦.word⟧", "implicit-operand", wclass="default", level="statement"),
     # ------------------------------------------------------------------ compile-pass errors (symbol table)
     K("duplicate-label", "compile", "error", "⟦dl{u}:⟧ nop", "duplicate-symbol", pre=("dl{u}: nop",)),
     K("duplicate-constant", "compile", "error", "⟦dc{u}⟧ = 2", "duplicate-symbol", pre=("dc{u} = 1",)),
     K("duplicate-local", "compile", "error", "⟦1{u}:⟧ nop", "duplicate-symbol", pre=("1{u}: nop",)),
     K("duplicate-export", "compile", "error", ".extern ⟦de{u}⟧", "duplicate-symbol", pre=("de{u}:: nop",)),
-    K("label-in-repeat", "link", "error", ".repeat 2 { ⟦lr{u}:⟧ nop }", "unexpected-symbol-definition"),
-    K("constant-in-repeat", "link", "error", ".repeat 2 { ⟦cr{u}⟧ = 5 }", "unexpected-symbol-definition"),
+    K("label-in-repeat", "compile", "error", ".repeat 2 { ⟦lr{u}:⟧ nop }", "unexpected-symbol-definition"),
+    K("constant-in-repeat", "compile", "error", ".repeat 2 { ⟦cr{u}⟧ = 5 }", "unexpected-symbol-definition"),
     # ------------------------------------------------------------------ parse-time errors
     K("local-made-external", "parse", "error", "⟦1{u}::⟧ nop", "invalid-extern"),
     K("unknown-escape", "parse", "error", ".ascii /a⟦\\q⟧b/", "invalid-escape"),
@@ -145,11 +153,11 @@ CATALOGUE = [
     K("empty-immediate", "parse", "critical", "mov #⟦⟧, r0", "invalid-expression",
       note="the expression inside '#' is missing: the position where it should start"),
     # ------------------------------------------------------------------ warnings
-    K("byte-without-operand", "link", "warning", "⟦.byte⟧", "implicit-operand", wclass="default", level="statement"),
-    K("legacy-deferred", "parse", "warning", "clr ⟦@r0⟧", "legacy-deferred", wclass="all"),
-    K("list-not-implemented", "link", "warning", "⟦.list⟧", "not-implemented", wclass="default", level="statement"),
+    K("byte-without-operand", "compile", "warning", "⟦.byte⟧", "implicit-operand", post=(".even",), wclass="default", level="statement"),
+    K("legacy-deferred", "compile", "warning", "clr ⟦@r0⟧", "legacy-deferred", wclass="all"),
+    K("list-not-implemented", "compile", "warning", "⟦.list⟧", "not-implemented", wclass="default", level="statement"),
     K("dotless-directive", "compile", "warning", "⟦word⟧ 1", "meta-typo", wclass="all"),
-    K("excess-hash-insn", "parse", "warning", "emt ⟦#⟧1", "excess-hash", wclass="default"),
+    K("excess-hash-insn", "compile", "warning", "emt ⟦#⟧1", "excess-hash", wclass="default"),
     K("excess-quote", "parse", "warning", ".word ⟦'a'⟧", "excess-quote", wclass="all"),
 ]
 del K
@@ -174,7 +182,9 @@ def by_class():
 # Base program and planting.  Python only renders; where a token is is computed from the rendered
 # text (str.index of the statement) and turned into line:col by the LineCol specification.
 
-BASE = ["start{f}: mov #1, r0", "add r0, r1", "loop{f}: dec r1", "bne loop{f}", "mov r1, @#176", "halt"]
+# no statement of the base refers to another one, so a fault block planted between any two of them (e.g. 200 words
+# of '.blkw') cannot break the base program itself
+BASE = ["start{f}: mov #1, r0", "add r0, r1", "loop{f}: sob r1, loop{f}", "bis r0, (r1)+", "mov r1, @#176", "halt"]
 
 
 def base_statements(tag):
@@ -225,14 +235,19 @@ def measure(kind, u=1):
     m = mods()
     rk = kind.render(u)
     text, offs = plant([(2, rk)], "m")
-    stage = {"v": "parse"}
+    stage = {"v": "parse", "depth": 0}
     comp_mod = m["compiler"]
-    orig_wait = comp_mod.wait
+    orig_file = comp_mod.Compiler.compile_file
     orig_cf = comp_mod.Compiler.compile_and_link_files
 
-    def wait2(x):
-        stage["v"] = "link"
-        return orig_wait(x)
+    def file2(self, *a, **kw):
+        stage["depth"] += 1
+        try:
+            return orig_file(self, *a, **kw)
+        finally:
+            stage["depth"] -= 1
+            if stage["depth"] == 0:
+                stage["v"] = "link"      # the (single) top-level file has been walked: what follows is forced evaluation
 
     def cf2(self, files):
         stage["v"] = "compile"
@@ -246,11 +261,11 @@ def measure(kind, u=1):
         seen.append(stage["v"])
         return orig_emit(priority, identifier, *reps)
 
-    comp_mod.wait, comp_mod.Compiler.compile_and_link_files, rep_mod.emit_report = wait2, cf2, emit2
+    comp_mod.Compiler.compile_file, comp_mod.Compiler.compile_and_link_files, rep_mod.emit_report = file2, cf2, emit2
     try:
         r = asm([("m.mac", text)], fs=dict(rk["fs"]))
     finally:
-        comp_mod.wait, comp_mod.Compiler.compile_and_link_files, rep_mod.emit_report = orig_wait, orig_cf, orig_emit
+        comp_mod.Compiler.compile_file, comp_mod.Compiler.compile_and_link_files, rep_mod.emit_report = orig_file, orig_cf, orig_emit
     reps = [(rep, st) for rep, st in zip(r["reports"], seen)]
     return {"outcome": r["outcome"], "exc": r["exc"],
             "reports": [{"sev": rep[0], "ident": rep[1], "phase": st,
